@@ -57,6 +57,48 @@ fn real_main(args: Vec<String>) -> i32 {
             bv::props::c20::tracer_main();
             0
         }
+        "tapes" => {
+            // tapes <PROP> <stream> <n> <dir> <seed>: write the seeded generator's first n tapes as corpus files
+            let Some(prop) = args.get(2).and_then(|id| bv::props::find(id)) else { usage() };
+            let stream = args[3].clone();
+            let n: u64 = args[4].parse().unwrap_or(16);
+            let seed: u64 = args.get(6).and_then(|s| s.parse().ok()).unwrap_or(1);
+            let st = prop.streams(Tier::Quick).into_iter().find(|s| s.name == stream).expect("stream");
+            for i in 0..n {
+                let tape = driver::tape_for(seed, prop.id(), &stream, i, st.tape_len);
+                let _ = std::fs::write(format!("{}/seed-{i}", args[5]), tape);
+            }
+            0
+        }
+        "replay-tape" => {
+            // replay-tape <PROP> <stream> <file>: run one case whose tape is the file's bytes
+            let Some(prop) = args.get(2).and_then(|id| bv::props::find(id)) else { usage() };
+            let tape = std::fs::read(&args[4]).expect("read tape");
+            let mut env = driver::Env::new(Tier::Thorough, 1);
+            env.replay = true;
+            let out = prop.run_case(&mut env, &args[3], 0, &tape);
+            match out.verdict {
+                driver::Verdict::Fail { sig, detail } => {
+                    let known = driver::match_known(&driver::load_known(), prop.id(), &sig).is_some();
+                    if known {
+                        println!("fuzz artifact matches a known finding: {sig}");
+                        0
+                    } else {
+                        let dir = format!("{}/replays/{}", bv::oracle::verif_root(), prop.id());
+                        let _ = std::fs::create_dir_all(&dir);
+                        let path = format!("{dir}/fuzz-{:016x}.json", bv::rng::hash_bytes(&tape));
+                        let v = serde_json::json!({"property": prop.id(), "stream": args[3], "index": 0, "tape": driver::hex(&tape), "rendered": out.rendered, "sig": sig, "detail": detail, "seed": 1, "tier": "thorough"});
+                        let _ = std::fs::write(&path, serde_json::to_string_pretty(&v).unwrap_or_default());
+                        println!("VIOLATION property={} replay={path}", prop.id());
+                        1
+                    }
+                }
+                _ => {
+                    println!("fuzz artifact does not reproduce as a property failure (crash inside the target?)");
+                    0
+                }
+            }
+        }
         "known1" => {
             let Some(prop) = args.get(2).and_then(|id| bv::props::find(id)) else { usage() };
             driver::known_one(prop.as_ref(), &args[3])
